@@ -3,7 +3,7 @@ from .. import gen as G
 from .common import TRUSTED, ASSUMPTIONS, default_nontrivial, LEVEL_NOTE, TECHNIQUE
 
 LEVEL = "proof"
-THEOREMS = []
+THEOREMS = ['C12_mul_ok', 'C12_mul_wf', 'C12_mul_base_rate', 'C12_mul_projection', 'C12_comul_ok', 'C12_comul_wf', 'C12_comul_base_rate', 'C12_comul_projection', 'C12_mul_comm', 'C12_comul_comm', 'C12_de_morgan', 'C12_de_morgan_dual', 'C12_mul_assoc', 'C12_comul_assoc', 'C12_defined_iff']
 RULE = ("bmul/bcomul on pairs of well-formed binomial opinions: 1/8 grid (exhaustive in thorough, sampled in quick), "
         "random dyadic grids up to 1/64, arbitrary floats; blaw kinds 0..5 (commutativity, associativity, De Morgan) on "
         "pairs/triples; f32+f64. non-trivial = implementation returned a value")
